@@ -61,6 +61,16 @@ def check_into(ck, fn, with_out, ev=None):
             good = len(writes) == 1 and sem.strip(writes[0][2][-1]) == pay_ok and \
                 not any(e[0] == "drop" and _mentions(e[1], pay_ok) for e in o.effects) and \
                 sum(1 for e in o.effects if e[0] in ("call", "icall") and any(_mentions(a, pay_ok) for a in e[2])) == 1
+            if not writes:
+                # the store form `*ok_out = MaybeUninit::new(v)`: MaybeUninit has no drop glue, so the assignment is a plain store of the
+                # payload into the slot (nothing that was there is read or dropped)
+                def is_new_of_payload(v):
+                    v = sem.strip(v)
+                    return v[0] == "opq" and v[2][0] == "call" and v[2][1].endswith("MaybeUninit::<T>::new") and len(v[2][2]) == 1 and sem.strip(v[2][2][0]) == pay_ok
+                stores = [(k, v) for k, v in o.state.over.items() if k[0] == ("ext", slot)]
+                good = len(stores) == 1 and not stores[0][0][1] and is_new_of_payload(stores[0][1]) and \
+                    not any(e[0] == "drop" and _mentions(e[1], pay_ok) for e in o.effects) and \
+                    sum(1 for e in o.effects if e[0] in ("call", "icall") and any(_mentions(a, pay_ok) for a in e[2])) == 1
             ck.ob("I-ok-writes-once", key, good, "%s: the Ok case must move the payload into ok_out exactly once: %s" % (key, o), sample={"fn": key, "case": repr(o)[:200]})
         if not with_out:
             # without an output slot the success value ends here: it is dropped (once) and not stored anywhere
@@ -80,7 +90,7 @@ def check_into(ck, fn, with_out, ev=None):
               sample={"fn": key, "err_case": repr(o)[:200]})
         if with_out:
             touch = [e for e in o.effects if e[0] in ("call", "icall") and any(_mentions(a, slot) for a in e[2])]
-            ck.ob("I-err-leaves-slot", key, not touch, "%s touches ok_out on the Err case: %s" % (key, o))
+            ck.ob("I-err-leaves-slot", key, not touch and not o.state.over_touches(slot), "%s touches ok_out on the Err case: %s" % (key, o))
 
 
 def check_from(ck, fn, with_val, ev=None):
